@@ -1,5 +1,371 @@
-import FlexModel.Geo.LocT
+/-
+C08 — Location table reflects the newest valid information about each station.
+Property theorems only.  Model: `FlexModel/Geo/TST.lean`, `FlexModel/Geo/LocT.lean` (mirrors the code after the
+repairs fixes/C08-*); helper lemmas: `FlexModel/Geo/LocTLemmas.lean`.
+
+Conventions: `c.v = {}` selects the repaired code (all `Variant` switches on).  `PV.time` may be read as the real
+(unwrapped) acquisition time in ITS milliseconds: the model only ever uses `PV.tst = time % 2^32`.
+`Win B x` = `B ≤ x < B + 2^31`: the timestamps/clock readings concerned lie in one window of less than 2^31 ms.
+-/
+import FlexModel.Geo.LocTLemmas
+
 namespace Props.C08
 open FlexModel.Geo
-theorem tst_irrefl (a : Nat) : TST.gt a a = false := by simp [TST.gt]
+
+/-! ## The timestamp order (all pairs of 32-bit timestamps) -/
+
+/-- irreflexive -/
+theorem tst_irrefl (a : Nat) : TST.gt a a = false := TST.gt_irrefl a
+
+/-- asymmetric (hence antisymmetric) – for all values, including the antipodal pairs -/
+theorem tst_asymm (a b : Nat) (h : TST.gt a b = true) : TST.gt b a = false := TST.gt_asymm a b h
+
+/-- total on distinct 32-bit values: exactly one of the two is the newer one -/
+theorem tst_total (a b : Nat) (ha : a < W) (hb : b < W) (h : a ≠ b) : TST.gt a b = true ∨ TST.gt b a = true :=
+  TST.gt_total a b ha hb h
+
+/-- agrees with real time for every difference below 2^31 ms, wherever the 2^32 wrap falls -/
+theorem tst_agrees_realtime (x y : Nat) (h1 : x < y) (h2 : y - x < HALF) :
+    TST.gt (y % W) (x % W) = true ∧ TST.gt (x % W) (y % W) = false :=
+  ⟨TST.gt_of_realtime x y h1 h2, TST.not_gt_of_realtime x y (Nat.le_of_lt h1) h2⟩
+
+/-- at a distance of exactly 2^31 ms the numerically larger field wins: the later timestamp is the newer one
+iff no wrap lies between the two -/
+theorem tst_antipode (x : Nat) : TST.gt ((x + HALF) % W) (x % W) = true ↔ x % W < HALF := TST.gt_antipode x
+
+/-- the order cannot be transitive on the whole circle … -/
+theorem tst_not_transitive_witness :
+    TST.gt 1500000000 0 = true ∧ TST.gt 3000000000 1500000000 = true ∧ TST.gt 3000000000 0 = false := by decide
+
+/-- … but it is a strict total order agreeing with `<` on every window of less than 2^31 ms -/
+theorem tst_window_order (B x y : Nat) (hx : Win B x) (hy : Win B y) : TST.gt (y % W) (x % W) = true ↔ x < y := by
+  obtain ⟨a1, a2⟩ := hx; obtain ⟨b1, b2⟩ := hy
+  constructor
+  · intro h
+    by_cases hle : y ≤ x
+    · have := TST.not_gt_of_realtime y x hle (by omega); rw [this] at h; cases h
+    · omega
+  · intro h; exact TST.gt_of_realtime x y h (by omega)
+
+/-- `TST.__sub__` is the elapsed time modulo 2^32 -/
+theorem tst_sub_realtime (x y : Nat) (h : x ≤ y) : TST.sub (y % W) (x % W) = (y - x) % W := TST.sub_spec x y h
+
+/-- age used by the purge rule: elapsed real time, and 0 when the sender's clock is ahead of the receiver's -/
+theorem age_realtime (N T : Nat) (h1 : T < N + HALF) (h2 : N < T + HALF) : TST.age (N % W) (T % W) = N - T :=
+  TST.age_spec N T h1 h2
+
+/-! ## Own address -/
+
+/-- for every history: no entry is ever keyed by an address with the station's own MID
+(receptions are stopped by DAD; `ensure` = Location Service placeholder is assumed not to be asked for oneself) -/
+theorem own_address_never_entered (c : Cfg) (hv : c.v = {}) (ops : List Op)
+    (hens : ∀ op ∈ ops, match op with | .ensure a => mid a ≠ mid c.self | _ => True) :
+    ∀ b e, lookup (run c ops) b = some e → mid b ≠ mid c.self := by
+  refine run_invariant c (fun t => ∀ b e, lookup t b = some e → mid b ≠ mid c.self) ops
+    (fun op => match op with | .ensure a => mid a ≠ mid c.self | _ => True) (by simp [lookup]) ?_ hens
+  intro t op hu hp hq b e hl
+  cases step_key c hv t op hu b e hl with
+  | inl h => obtain ⟨e0, h0⟩ := h; exact hp b e0 h0
+  | inr h =>
+    cases op with
+    | pkt k a p sn now => obtain ⟨hb, hd⟩ := h; rw [hb]; exact hd
+    | ensure a => rw [h]; exact hq
+    | refresh now => cases h
+    | tick now => cases h
+
+example : lookup (run { self := 7, lifetimeMs := 20000, dplLen := 8 }
+    [.pkt .shb 7 { time := 1000 } 0 1000, .pkt .tsb (7 + 281474976710656) { time := 1000 } 1 1000]) 7 = none := by decide
+
+/-! ## Newest position vector wins, older or equal never replaces -/
+
+/-- one reception, any table: a PV whose timestamp is not newer than the stored one never replaces it -/
+theorem older_or_equal_never_replaces (c : Cfg) (hv : c.v = {}) (t : Table) (hu : Uniq t) (k : Kind) (a : Addr)
+    (p : PV) (sn now : Nat) (e e' : Entry) (hd : mid a ≠ mid c.self)
+    (hlive : keep (fresh c now) (lookup t a) = some e) (hh : e.hasPV = true)
+    (hold : TST.gt p.tst e.pv.tst = false) (h' : lookup (recv c t k a p sn now).1 a = some e') :
+    e'.pv = e.pv := by
+  have hlk := lookup_recv_self c hv t k a p sn now hd hu
+  simp only [selfOutcome, hlive] at hlk
+  obtain ⟨_, h2, h3⟩ := entryStep_some c hv e k p sn
+  by_cases hdup : (entryStep c (some e) k p sn).2 = .dup
+  · simp only [hdup, if_true] at hlk
+    rw [hlk] at h'; cases h'; rfl
+  · simp only [hdup, if_false] at hlk
+    rw [hlk] at h'
+    obtain ⟨heq, _⟩ := keep_some h'
+    cases heq
+    obtain ⟨_, _, _, _, g4⟩ := h3 hdup
+    rw [g4]; simp [hh, hold]
+
+/-- one reception, any table: an accepted PV with a newer timestamp replaces the stored one -/
+theorem newer_replaces (c : Cfg) (hv : c.v = {}) (t : Table) (hu : Uniq t) (k : Kind) (a : Addr)
+    (p : PV) (sn now : Nat) (e e' : Entry) (hd : mid a ≠ mid c.self)
+    (hlive : keep (fresh c now) (lookup t a) = some e)
+    (hnew : TST.gt p.tst e.pv.tst = true) (hok : (recv c t k a p sn now).2 = .ok)
+    (h' : lookup (recv c t k a p sn now).1 a = some e') :
+    e'.pv = p := by
+  have hlk := lookup_recv_self c hv t k a p sn now hd hu
+  have hres := recv_res c hv t k a p sn now hd hu
+  simp only [selfOutcome, hlive] at hlk hres
+  obtain ⟨_, _, h3⟩ := entryStep_some c hv e k p sn
+  by_cases hdup : (entryStep c (some e) k p sn).2 = .dup
+  · simp only [hdup, if_true] at hres; rw [hres] at hok; cases hok
+  · simp only [hdup, if_false] at hlk
+    rw [hlk] at h'
+    obtain ⟨heq, _⟩ := keep_some h'
+    cases heq
+    obtain ⟨_, _, _, _, g4⟩ := h3 hdup
+    rw [g4]; simp [hnew]
+
+/-- all histories: while the entry of `a` lives, its PV is the newest (by real time) of the PV it started with and all
+PVs of `a` accepted since – it is one of them and none of them is newer.  Hypotheses: every operation happens inside the
+window `B` and not after `lim ≤ (initial PV time) + lifetime`; the timestamps of `a`'s packets lie in the window. -/
+theorem newest_pv (c : Cfg) (hv : c.v = {}) (a : Addr) (B lim : Nat) (ops : List Op) (t : Table) (e : Entry)
+    (hu : Uniq t) (hl : lookup t a = some e) (hh : e.hasPV = true) (hw : Win B e.pv.time)
+    (hlim : lim ≤ e.pv.time + c.lifetimeMs) (hops : ∀ op ∈ ops, OpOK a B lim op) :
+    ∃ e', lookup (ops.foldl (step c) t) a = some e' ∧
+      (∀ q ∈ e.pv :: acceptedFrom c a t ops, q.time ≤ e'.pv.time) ∧ e'.pv ∈ e.pv :: acceptedFrom c a t ops := by
+  obtain ⟨e', r1, _, _, r4, _, r6, r7⟩ := live_entry c hv a B ops t e lim hu hl hh hw hlim hops
+  refine ⟨e', r1, ?_, ?_⟩
+  · intro q hq
+    cases List.mem_cons.1 hq with
+    | inl h => rw [h]; exact r4
+    | inr h => exact r6 q h
+  · cases r7 with
+    | inl h => rw [h]; exact List.mem_cons_self
+    | inr h => exact List.mem_cons_of_mem _ h
+
+/-! ## Presence: for the lifetime after the position timestamp, also with the sender's clock ahead -/
+
+/-- a packet of a source that has no live entry creates one carrying the packet's PV, and the entry is there iff the
+PV is at most `lifetime` old – in particular whenever the sender's timestamp is AHEAD of the receiver clock -/
+theorem present_after_valid_packet (c : Cfg) (hv : c.v = {}) (t : Table) (hu : Uniq t) (k : Kind) (a : Addr)
+    (p : PV) (sn now B : Nat) (hd : mid a ≠ mid c.self) (hnew : keep (fresh c now) (lookup t a) = none)
+    (hp : Win B p.time) (hn : Win B now) :
+    (recv c t k a p sn now).2 = .ok ∧
+    ((∃ e', lookup (recv c t k a p sn now).1 a = some e' ∧ e'.pv = p ∧ e'.hasPV = true ∧
+        e'.isNeighbour = k.singleHop) ↔ now ≤ p.time + c.lifetimeMs) := by
+  have hlk := lookup_recv_self c hv t k a p sn now hd hu
+  have hres := recv_res c hv t k a p sn now hd hu
+  simp only [selfOutcome, hnew] at hlk hres
+  obtain ⟨g0, g1, g2, _, g4⟩ := entryStep_none c hv k p sn
+  have hnd : (entryStep c none k p sn).2 ≠ .dup := by rw [g0]; decide
+  simp only [hnd, if_false] at hlk hres
+  refine ⟨hres, ?_⟩
+  have hfw := fresh_iff_window c hv B now (entryStep c none k p sn).1 g1 (by rw [g4]; exact hp) hn
+  rw [g4] at hfw
+  constructor
+  · rintro ⟨e', h1, _⟩
+    rw [hlk] at h1
+    obtain ⟨heq, hf⟩ := keep_some h1
+    cases heq
+    exact hfw.1 hf
+  · intro h
+    rw [hlk, keep_of_true (hfw.2 h)]
+    exact ⟨_, rfl, g4, g1, g2⟩
+
+/-- sender clock ahead of the receiver clock (by less than 2^31 ms): the entry is created and kept -/
+theorem present_when_sender_clock_ahead (c : Cfg) (hv : c.v = {}) (t : Table) (hu : Uniq t) (k : Kind) (a : Addr)
+    (p : PV) (sn now : Nat) (hd : mid a ≠ mid c.self) (hnew : keep (fresh c now) (lookup t a) = none)
+    (hahead : now ≤ p.time) (hskew : p.time < now + HALF) :
+    ∃ e', lookup (recv c t k a p sn now).1 a = some e' ∧ e'.pv = p := by
+  obtain ⟨_, h⟩ := present_after_valid_packet c hv t hu k a p sn now now hd hnew ⟨hahead, hskew⟩
+    ⟨Nat.le_refl _, by simp [HALF]⟩
+  obtain ⟨e', h1, h2, _⟩ := h.2 (by omega)
+  exact ⟨e', h1, h2⟩
+
+/-- all histories: an entry with PV time `T` stays in the table through every sequence of operations that happen not
+later than `T + lifetime`, whatever packets of whatever sources are processed -/
+theorem present_until_expiry (c : Cfg) (hv : c.v = {}) (a : Addr) (B : Nat) (ops : List Op) (t : Table) (e : Entry)
+    (hu : Uniq t) (hl : lookup t a = some e) (hh : e.hasPV = true) (hw : Win B e.pv.time)
+    (hops : ∀ op ∈ ops, OpOK a B (e.pv.time + c.lifetimeMs) op) :
+    ∃ e', lookup (ops.foldl (step c) t) a = some e' ∧ e'.hasPV = true ∧ e.pv.time ≤ e'.pv.time := by
+  obtain ⟨e', r1, r2, _, r4, _⟩ := live_entry c hv a B ops t e _ hu hl hh hw (Nat.le_refl _) hops
+  exact ⟨e', r1, r2, r4⟩
+
+/-- after any reception that reaches the location table (accepted or duplicate) at clock `now`, and after any explicit
+purge, the table holds no entry whose PV is older than the lifetime (and no placeholder without pending LS) -/
+theorem no_expired_entry_after_reception (c : Cfg) (hv : c.v = {}) (t : Table) (hu : Uniq t) (k : Kind) (a : Addr)
+    (p : PV) (sn now : Nat) (hd : mid a ≠ mid c.self) (b : Addr) (e : Entry)
+    (h : lookup (recv c t k a p sn now).1 b = some e) : fresh c now e = true := by
+  by_cases hb : b = a
+  · subst hb
+    have hlk := lookup_recv_self c hv t k b p sn now hd hu
+    rw [hlk] at h
+    split at h <;> exact (keep_some h).2
+  · rw [lookup_recv_ne c hv t k a b p sn now hd hb hu] at h
+    exact (keep_some h).2
+
+/-- real-time reading of `fresh`: with eager expiry (`getEntryEager`, the `fixed` variant of known finding C08-KF1) an
+entry is visible exactly until `PV time + lifetime` -/
+theorem gone_after_lifetime (c : Cfg) (hv : c.v = {}) (t : Table) (hu : Uniq t) (a : Addr) (e : Entry) (B now : Nat)
+    (hl : lookup t a = some e) (hh : e.hasPV = true) (hw : Win B e.pv.time) (hn : Win B now) :
+    (getEntryEager c t a now = some e ↔ now ≤ e.pv.time + c.lifetimeMs) ∧
+    (getEntryEager c t a now = none ↔ e.pv.time + c.lifetimeMs < now) := by
+  have hf := fresh_iff_window c hv B now e hh hw hn
+  simp only [getEntryEager, lookup_refresh c t now a hu, hl, keep]
+  cases h : fresh c now e with
+  | true =>
+    have := hf.1 h
+    simp
+    omega
+  | false =>
+    have : ¬ now ≤ e.pv.time + c.lifetimeMs := fun g => by rw [hf.2 g] at h; cases h
+    simp
+    omega
+
+/-- the code as it is (lazy expiry): outside the known region – i.e. right after any reception or purge at `now` –
+every entry with a PV satisfies `now ≤ PV time + lifetime` -/
+theorem gone_after_lifetime_partial (c : Cfg) (hv : c.v = {}) (t : Table) (hu : Uniq t) (k : Kind) (a : Addr)
+    (p : PV) (sn now B : Nat) (hd : mid a ≠ mid c.self) (b : Addr) (e : Entry)
+    (h : getEntry (recv c t k a p sn now).1 b = some e) (hh : e.hasPV = true) (hw : Win B e.pv.time) (hn : Win B now) :
+    now ≤ e.pv.time + c.lifetimeMs :=
+  (fresh_iff_window c hv B now e hh hw hn).1 (no_expired_entry_after_reception c hv t hu k a p sn now hd b e h)
+
+/-- known finding C08-KF1: `get_entry` after a pure clock advance still returns the expired entry -/
+theorem gone_after_lifetime_witness :
+    let c : Cfg := { self := 1, lifetimeMs := 20000, dplLen := 8 }
+    let t := run c [.pkt .shb 5 { time := 100000 } 0 100000, .tick 120001]
+    (getEntry t 5).isSome = true ∧ getEntryEager c t 5 120001 = none := by decide
+
+/-! ## Neighbour flag -/
+
+/-- a processed beacon / SHB makes the source a neighbour (if its PV is not already expired) -/
+theorem neighbour_after_single_hop (c : Cfg) (hv : c.v = {}) (t : Table) (hu : Uniq t) (k : Kind) (a : Addr)
+    (p : PV) (sn now : Nat) (e' : Entry) (hd : mid a ≠ mid c.self) (hk : k.singleHop = true)
+    (h : lookup (recv c t k a p sn now).1 a = some e') : e'.isNeighbour = true := by
+  have hlk := lookup_recv_self c hv t k a p sn now hd hu
+  rw [hlk] at h
+  cases hold : keep (fresh c now) (lookup t a) with
+  | none =>
+    simp only [selfOutcome, hold] at h
+    obtain ⟨g0, _, g2, _⟩ := entryStep_none c hv k p sn
+    have hnd : (entryStep c none k p sn).2 ≠ .dup := by rw [g0]; decide
+    simp only [hnd, if_false] at h
+    obtain ⟨heq, _⟩ := keep_some h
+    cases heq; rw [g2, hk]
+  | some e =>
+    simp only [selfOutcome, hold] at h
+    obtain ⟨h1, _, h3⟩ := entryStep_some c hv e k p sn
+    have hnd : (entryStep c (some e) k p sn).2 ≠ .dup := by
+      intro hdup; have := (h1.1 hdup).1; rw [hk] at this; cases this
+    simp only [hnd, if_false] at h
+    obtain ⟨heq, _⟩ := keep_some h
+    cases heq
+    obtain ⟨_, _, g2, _⟩ := h3 hnd
+    rw [g2, hk]; rfl
+
+/-- all histories: a neighbour stays a neighbour until its entry expires, whatever multi-hop packets (of itself or of
+others), purges and Location Service placeholders intervene -/
+theorem neighbour_until_expiry (c : Cfg) (hv : c.v = {}) (a : Addr) (B : Nat) (ops : List Op) (t : Table) (e : Entry)
+    (hu : Uniq t) (hl : lookup t a = some e) (hh : e.hasPV = true) (hnb : e.isNeighbour = true)
+    (hw : Win B e.pv.time) (hops : ∀ op ∈ ops, OpOK a B (e.pv.time + c.lifetimeMs) op) :
+    ∃ e', lookup (ops.foldl (step c) t) a = some e' ∧ e'.isNeighbour = true ∧ a ∈ neighbours (ops.foldl (step c) t) := by
+  obtain ⟨e', r1, _, r3, _⟩ := live_entry c hv a B ops t e _ hu hl hh hw (Nat.le_refl _) hops
+  refine ⟨e', r1, r3 hnb, ?_⟩
+  have : ∀ (t : Table), lookup t a = some e' → a ∈ neighbours t := by
+    intro t
+    induction t with
+    | nil => simp [lookup]
+    | cons x r ih =>
+      obtain ⟨k, v⟩ := x
+      by_cases hk : k = a
+      · intro h; simp only [lookup, hk, if_true] at h; cases h
+        simp [neighbours, List.filter, r3 hnb, hk]
+      · intro h; simp only [lookup, hk, if_false] at h
+        have := ih h
+        simp only [neighbours, List.filter] at this ⊢
+        split <;> simp_all
+  exact this _ r1
+
+/-- all histories: a source known only through multi-hop packets (and LS placeholders) is not a neighbour -/
+theorem multihop_only_not_neighbour (c : Cfg) (hv : c.v = {}) (a : Addr) (ops : List Op)
+    (hno : ∀ op ∈ ops, match op with | .pkt k b _ _ _ => ¬ (b = a ∧ k.singleHop = true) | _ => True) :
+    ∀ e, lookup (run c ops) a = some e → e.isNeighbour = false := by
+  refine run_invariant c (fun t => ∀ e, lookup t a = some e → e.isNeighbour = false) ops
+    (fun op => match op with | .pkt k b _ _ _ => ¬ (b = a ∧ k.singleHop = true) | _ => True) (by simp [lookup]) ?_ hno
+  intro t op hu hp hq e hl
+  cases op with
+  | tick now => exact hp e hl
+  | refresh now =>
+    simp only [step, lookup_refresh c t now a hu] at hl
+    exact hp e (keep_some hl).1
+  | ensure b =>
+    by_cases hb : b = a
+    · subst hb
+      simp only [step, ensure] at hl
+      split at hl
+      next e0 h0 => rw [lookup_insert_self] at hl; cases hl; exact hp e0 h0
+      next => rw [lookup_insert_self] at hl; cases hl; rfl
+    · have : lookup (step c t (.ensure b)) a = lookup t a := by
+        simp only [step, ensure]; split <;> exact lookup_insert_ne _ _ _ _ (Ne.symm hb)
+      exact hp e (this ▸ hl)
+  | pkt k b p sn now =>
+    by_cases hd : mid b = mid c.self
+    · simp only [step, recv_dad c t k b p sn now hd] at hl; exact hp e hl
+    · by_cases hb : b = a
+      · subst hb
+        have hk : k.singleHop = false := by
+          cases h : k.singleHop with
+          | false => rfl
+          | true => exact absurd ⟨rfl, h⟩ hq
+        simp only [step, lookup_recv_self c hv t k b p sn now hd hu, selfOutcome] at hl
+        cases hold : keep (fresh c now) (lookup t b) with
+        | none =>
+          simp only [hold] at hl
+          obtain ⟨g0, _, g2, _⟩ := entryStep_none c hv k p sn
+          have hnd : (entryStep c none k p sn).2 ≠ .dup := by rw [g0]; decide
+          simp only [hnd, if_false] at hl
+          obtain ⟨heq, _⟩ := keep_some hl
+          cases heq; rw [g2, hk]
+        | some e0 =>
+          have he0 := hp e0 (keep_some hold).1
+          simp only [hold] at hl
+          obtain ⟨_, h2, h3⟩ := entryStep_some c hv e0 k p sn
+          by_cases hdup : (entryStep c (some e0) k p sn).2 = .dup
+          · simp only [hdup, if_true] at hl; cases hl; exact he0
+          · simp only [hdup, if_false] at hl
+            obtain ⟨heq, _⟩ := keep_some hl
+            cases heq
+            obtain ⟨_, _, g2, _⟩ := h3 hdup
+            rw [g2, hk, he0]; rfl
+      · simp only [step, lookup_recv_ne c hv t k b a p sn now hd (Ne.symm hb) hu] at hl
+        exact hp e (keep_some hl).1
+
+/-- non-vacuity of the history theorems: SHB, then TSB/GBC of the same source and a foreign GUC, 19 s later -/
+example :
+    let c : Cfg := { self := 1, lifetimeMs := 20000, dplLen := 8 }
+    let t := run c [.pkt .shb 5 { time := 100000, lat := 1 } 0 100000, .pkt .gbc 5 { time := 100500, lat := 2 } 7 100600,
+      .pkt .guc 6 { time := 119000 } 1 119000, .pkt .tsb 5 { time := 100400, lat := 3 } 8 119500]
+    (lookup t 5).map (fun e => (e.pv.time, e.pv.lat, e.isNeighbour)) = some (100500, 2, true) ∧ neighbours t = [5] := by
+  decide
+
+/-! ## The defects repaired by fixes/C08-* (old behaviour as `Variant` switches) -/
+
+/-- before `C08-refresh-ms-clock`: a beacon stamped with the receiver's own current millisecond was purged at once -/
+theorem refresh_old_witness :
+    let old : Cfg := { self := 1, lifetimeMs := 20000, dplLen := 8, v := { msClock := false } }
+    let new : Cfg := { self := 1, lifetimeMs := 20000, dplLen := 8 }
+    lookup (run old [.pkt .beacon 5 { time := 100500 } 0 100500]) 5 = none ∧
+    (lookup (run new [.pkt .beacon 5 { time := 100500 } 0 100500]) 5).isSome = true := by decide
+
+/-- before `C08-gbc-neighbour`: any GBC of a neighbour cleared its neighbour flag -/
+theorem gbc_old_witness :
+    let old : Cfg := { self := 1, lifetimeMs := 20000, dplLen := 8, v := { gbcKeepsNb := false } }
+    neighbours (run old [.pkt .shb 5 { time := 100000 } 0 100000, .pkt .gbc 5 { time := 100100 } 3 100200]) = [] := by
+  decide
+
+/-- before `C08-tst-zero`: a stored PV with the genuine timestamp 0 was replaced by an OLDER one -/
+theorem tst_zero_old_witness :
+    let old : Cfg := { self := 1, lifetimeMs := 20000, dplLen := 8, v := { pvFlag := false } }
+    let ops := [Op.pkt .beacon 5 { time := 4294967296, lat := 1 } 0 4294967200, .pkt .beacon 5 { time := 4294967135, lat := 2 } 0 4294967250]
+    (lookup (run old ops) 5).map (·.pv.lat) = some 2 ∧
+    (lookup (run { old with v := {} } ops) 5).map (·.pv.lat) = some 1 := by decide
+
+/-- before `C08-purge-before-update`: an expired entry was revived with its stale neighbour flag -/
+theorem revive_old_witness :
+    let old : Cfg := { self := 1, lifetimeMs := 20000, dplLen := 8, v := { prePurge := false } }
+    let ops := [Op.pkt .shb 5 { time := 100000 } 0 100000, .pkt .tsb 5 { time := 130000 } 1 130000]
+    neighbours (run old ops) = [5] ∧ neighbours (run { old with v := {} } ops) = [] := by decide
+
 end Props.C08
